@@ -353,6 +353,17 @@ func probes() []probe {
 				TailRest: true},
 		},
 		{
+			name: "follower-does-not-expire-on-its-own", finding: "follower-expires-independently", status: "regression",
+			what: "follower holds kf/x with a 3 s TTL; the link stalls for 5 s; the leader PERSISTs kf/x at once; the follower must keep the object until the PERSIST arrives (it used to sweep and log its own del, then the PERSIST found nothing: leader keeps x for ever, follower never has it)",
+			spec: caseSpec{Init: initEmpty, FirstSync: true, Settle: true,
+				Pre: padsCycling("pad", 22, 30000, 3),
+				Steps: []step{
+					{Kind: stBurst, Sync: true, Cmds: [][]string{{"SET", "kf", "x", "EX", "3", "POINT", "33", "-115"}}},
+					{Kind: stStall, Ms: 5000},
+					{Kind: stBurst, Cmds: [][]string{{"PERSIST", "kf", "x"}}},
+					{Kind: stSleep, Ms: 4500}}},
+		},
+		{
 			name: "jdel-replicated", finding: "jdel-not-a-write", status: "regression",
 			what: "JDEL on the leader must reach the follower and its log (it used to be neither logged nor streamed)",
 			spec: caseSpec{Init: initEmpty, FirstSync: true, Settle: true,
@@ -464,7 +475,7 @@ func TestC06_Faults(t *testing.T) {
 		c.Note("known finding %s active: every step that re-issues FOLLOW is preceded by an oracle evaluation (steady follower), no tail refollow", findingStaleSession)
 	}
 	if o.noBoundaryAt512K {
-		c.Note("known finding %s active: a case whose leader log has a command boundary exactly at offset 524288 when the follower is created is skipped (counted as excluded); for followers with a diverged log the verified prefix can end anywhere, a hit there (about 1e-4 per reconnect) is reported as the known finding", findingKeepsTail)
+		c.Note("known finding %s active: a case whose leader log has a command boundary exactly at offset 524288 when the follower is created is skipped (counted as excluded); for followers with a diverged log the verified prefix can end anywhere, a hit there (about 1e-4 per reconnect) cannot be attributed and would show as mismatch:*", findingKeepsTail)
 	}
 	if o.noStarDigit {
 		c.Note("known finding %s active: no key/id/field name ends in *<digits>", findingCutInsideBulk)
